@@ -199,6 +199,187 @@ def _ann_mentions_string(f):
     return r is not None and 'AnsiString' in norm(r)
 
 
+_MISSING = object()
+
+
+def _stored_rendering_args(m):
+    """The AnsiStr payload is str(<AnsiString>) made in __new__.  Follow AnsiString.__str__ -> __format__ -> to_str through their single
+    returns and give the to_str arguments the stored rendering was made with ({param: constant}), or None when the chain is not of that shape."""
+    S = m.cls('AnsiStr')
+    A = m.cls('AnsiString')
+    new = S.methods.get('__new__')
+    if new is None or '__str__' in S.methods or 'to_str' not in A.methods:
+        return None
+    made = [n for n in new.walk() if isinstance(n, ast.Call) and isinstance(n.func, ast.Attribute) and n.func.attr == '__new__' and len(n.args) == 2]
+    if not made or not all(call_name(n.args[1]) == 'str' and len(n.args[1].args) == 1 and isinstance(n.args[1].args[0], ast.Name) for n in made):
+        return None
+    ts = A.methods['to_str']
+    vals = None
+    cur, args = A.methods.get('__str__'), {}
+    for _ in range(4):
+        if cur is None:
+            return None
+        if cur is ts:
+            vals = {}
+            for p_ in ts.own_params() + ts.kwonly:
+                if p_ in args:
+                    vals[p_] = args[p_]
+                elif p_ in ts.defaults:
+                    vals[p_] = const_val(ts.defaults[p_], _MISSING)
+                else:
+                    return None
+            break
+        e, _r = single_return(cur)
+        if not (isinstance(e, ast.Call) and isinstance(e.func, ast.Attribute) and is_name(e.func.value, cur.self_name) and e.func.attr in A.methods):
+            return None
+        callee = A.methods[e.func.attr]
+        bound, pr = bind_call(e, callee)
+        if pr:
+            return None
+        nxt = {}
+        for p_, v_ in bound.items():
+            if isinstance(v_, ast.Name) and v_.id in args:
+                nxt[p_] = args[v_.id]
+            else:
+                c_ = const_val(v_, _MISSING)
+                if c_ is _MISSING:
+                    return None
+                nxt[p_] = c_
+        cur, args = callee, nxt
+    if vals is None or any(v is _MISSING for v in vals.values()):
+        return None
+    return vals
+
+
+def _truthiness_only(f, p):
+    """True when function f looks at parameter p only through its truth value, or inside a block entered only when p is true."""
+    for n in f.walk():
+        if not (isinstance(n, ast.Name) and n.id == p):
+            continue
+        if isinstance(n.ctx, ast.Store):
+            return False
+        par, child, ok = getattr(n, '_parent', None), n, False
+        while par is not None and par is not f.node:
+            if isinstance(par, (ast.If, ast.IfExp, ast.While)) and par.test is child and child is n:
+                ok = True
+                break
+            if isinstance(par, ast.UnaryOp) and isinstance(par.op, ast.Not) and child is n:
+                ok = True
+                break
+            if isinstance(par, ast.BoolOp) and child is n:
+                # an operand of and/or counts when the BoolOp itself is only tested
+                child, par = par, getattr(par, '_parent', None)
+                n = child
+                continue
+            if isinstance(par, ast.If) and is_name(par.test, p) and any(child is b for b in par.body):
+                ok = True
+                break
+            child, par = par, getattr(par, '_parent', None)
+        if not ok:
+            return False
+    return True
+
+
+def _stored_rendering_returns(m, R, sf, tw, body, name, cons):
+    """Leading `if <guard>: return <the stored rendering>` statements of AnsiStr.to_str / __format__.  The stored rendering was made with
+    fixed to_str arguments, so such a return is right exactly when the guard admits only those arguments (finite evaluation over
+    the parameters: booleans both ways, the format spec None / '' / non-empty).  Returns (remaining body, stop)."""
+    selfn = sf.self_name
+    payload_forms = ('str.__str__(%s)' % selfn, 'str(%s)' % selfn, 'super().__str__()', 'super(AnsiStr, %s).__str__()' % selfn)
+    lead = []
+    rest = list(body)
+    while rest and isinstance(rest[0], ast.If) and not rest[0].orelse and len(rest[0].body) == 1 and isinstance(rest[0].body[0], ast.Return) and \
+            rest[0].body[0].value is not None and norm(rest[0].body[0].value) in payload_forms:
+        lead.append(rest.pop(0))
+    if not lead:
+        return body, False
+    stored = _stored_rendering_args(m)
+    ts = m.cls('AnsiString').methods.get('to_str')
+    if stored is None or ts is None:
+        R.undecided(sf, lead[0], 'returns the stored rendering early, and how that rendering was made is not recognised', construct=cons)
+        return body, True
+    # the method's parameters as to_str arguments
+    params = sf.own_params() + sf.kwonly
+    if name == 'to_str':
+        as_arg = {p_: p_ for p_ in params if p_ in stored}
+    else:
+        e, _r = single_return(tw)
+        as_arg = {}
+        if isinstance(e, ast.Call) and isinstance(e.func, ast.Attribute) and e.func.attr == 'to_str':
+            bound, pr = bind_call(e, ts)
+            tparams = tw.own_params()
+            for q_, v_ in bound.items():
+                if isinstance(v_, ast.Name) and v_.id in tparams and tparams.index(v_.id) < len(params):
+                    as_arg[params[tparams.index(v_.id)]] = q_
+    if not as_arg or set(as_arg) != set(params):
+        R.undecided(sf, lead[0], 'returns the stored rendering early; parameters not matched to to_str arguments', construct=cons)
+        return body, True
+    import itertools
+    doms = []
+    for p_ in params:
+        sv = stored[as_arg[p_]]
+        if isinstance(sv, bool):
+            doms.append([True, False])
+        elif sv is None or isinstance(sv, str):
+            doms.append([None, '', 'x'])
+        else:
+            R.undecided(sf, lead[0], 'returns the stored rendering early; domain of %s not enumerable' % p_, construct=cons)
+            return body, True
+    from ..finite import eval_guard
+    for st in lead:
+        bad = None
+        unknown = None
+        for combo in itertools.product(*doms):
+            env = dict(zip(params, combo))
+
+            def val(atom, env=env):
+                if isinstance(atom, ast.Name) and atom.id in env:
+                    return bool(env[atom.id])
+                if isinstance(atom, ast.Compare) and len(atom.ops) == 1 and isinstance(atom.left, ast.Name) and atom.left.id in env:
+                    c_ = const_val(atom.comparators[0], _MISSING)
+                    if c_ is _MISSING:
+                        return None
+                    a_ = env[atom.left.id]
+                    op = atom.ops[0]
+                    if isinstance(op, ast.Is):
+                        return a_ is c_
+                    if isinstance(op, ast.IsNot):
+                        return a_ is not c_
+                    if isinstance(op, ast.Eq):
+                        return a_ == c_
+                    if isinstance(op, ast.NotEq):
+                        return a_ != c_
+                return None
+            g = eval_guard(st.test, val)
+            if g is None:
+                unknown = env
+                continue
+            if not g:
+                continue
+            for p_ in params:
+                sv = stored[as_arg[p_]]
+                if env[p_] == sv and type(env[p_]) is type(sv):
+                    continue
+                if not isinstance(sv, bool) and not env[p_] and not sv and _truthiness_only(ts, as_arg[p_]):
+                    continue        # None and '' are the same to a to_str that only asks whether a spec was given
+                if not any(isinstance(n_, ast.Name) and n_.id == as_arg[p_] and isinstance(n_.ctx, ast.Load) for n_ in ts.walk()):
+                    continue        # a parameter to_str never reads cannot change the rendering
+                bad = (env, p_, sv)
+                break
+            if bad:
+                break
+        if bad:
+            env, p_, sv = bad
+            R.viol(sf, st, 'returns the stored rendering, which was made with %s=%r, also when called with %s: the twin AnsiString.%s honours %s' % (
+                as_arg[p_], sv, ', '.join('%s=%r' % kv for kv in env.items()), name, p_), construct=cons)
+            return body, True
+        if unknown is not None:
+            R.undecided(sf, st, 'guard of the early return of the stored rendering not evaluated: %s' % short(st.test), construct=cons)
+            return body, True
+    return rest, False
+
+
+
 @rule('D3', 'ansistr-twins: every method common to both classes delegates to the same-named AnsiString method with the same '
             'arguments, on a copy when it mutates, and re-wraps the result', floor=60)
 def D3(m, R):
@@ -260,6 +441,13 @@ def D3(m, R):
             R.check(expr is not None and norm(expr) == '%s.%s' % (wrapped, name), sf, ret or sf.node,
                     'property reads %s.%s' % (W, name), 'property returns %s' % short(expr), construct=cons)
             continue
+        pre_expr = None
+        if name in ('to_str', '__format__'):
+            body, stop_ = _stored_rendering_returns(m, R, sf, tw, body, name, cons)
+            if stop_:
+                continue
+            if body is not sf.body and len(body) == 1 and isinstance(body[0], ast.Return) and body[0].value is not None:
+                pre_expr = (body[0].value, body[0])
         # form (ii): copy / call / re-wrap
         if len(body) == 3 and isinstance(body[0], ast.Assign) and isinstance(body[2], ast.Return):
             a0, s1, r2 = body
@@ -289,7 +477,7 @@ def D3(m, R):
                 and call_name(body[1].value) == 'AnsiStr' and [norm(a) for a in body[1].value.args] == [norm(body[0].targets[0])] and (tw_inplace or tw_mutator):
             R.viol(sf, sf.node, 'copies the wrapped string and re-wraps it but never applies %s to the copy: the method returns an unchanged value' % name, construct=cons)
             continue
-        expr, ret = single_return(sf)
+        expr, ret = pre_expr or single_return(sf)
         if name == '__eq__':
             # another AnsiStr is equal exactly when the renderings are equal; anything else is unequal (guard first or a conjunction)
             rets = [n for n in sf.walk() if isinstance(n, ast.Return)]
